@@ -286,7 +286,7 @@ Proof.
     rewrite (tp_perm _ _ Hp) in Hz. rewrite (loop_none_no_power _ l' 0 Hn' Hz). reflexivity.
   - assert (Hd : total_power l / 2 <= total_power l) by (apply Z.div_le_upper_bound; lia).
     destruct (loop_some (total_power l / 2) l 0 Hn ltac:(lia) ltac:(lia)) as [m Hm].
-    pose proof (tp_perm _ _ Hp) as HTe.
+    pose proof (tp_perm _ _ Hp) as HTe. rewrite HTe in Hd, Hz, HT.
     destruct (loop_some (total_power l' / 2) l' 0 Hn' ltac:(lia) ltac:(lia)) as [m' Hm'].
     rewrite Hm, Hm'. f_equal.
     apply (low_median_unique l' m m').
@@ -317,40 +317,47 @@ Proof.
     apply loop_is_low_median; assumption.
 Qed.
 
-(** zero-power votes (abstentions, bonded validators without consensus power) do not influence the
-    median of the current code *)
-Lemma low_median_drop_zero vs m :
-  nonneg vs -> is_low_median vs m -> is_low_median (filter (fun v => 0 <? pv_power v) vs) m.
+(** votes that carry no power (abstentions, bonded validators without consensus power) do not
+    influence the median of the current code: removing any set of zero-power votes leaves it unchanged *)
+Definition only_zero_dropped (f : pvote -> bool) (vs : list pvote) : Prop :=
+  forall v, In v vs -> f v = false -> pv_power v = 0.
+
+Lemma tp_filter_zero f l : only_zero_dropped f l -> total_power (filter f l) = total_power l.
 Proof.
-  intros Hn [[v [Hv [Hr Hp]]] [C L]].
-  assert (Ht : forall l, nonneg l -> total_power (filter (fun v => 0 <? pv_power v) l) = total_power l).
-  { induction l as [|x l IH]; simpl; intro N; [reflexivity|]. apply nonneg_cons in N as [Nx N].
-    destruct (0 <? pv_power x) eqn:E; simpl; rewrite (IH N); [reflexivity|]. apply Z.ltb_ge in E. lia. }
-  assert (Hc : forall r, cum_le (filter (fun v => 0 <? pv_power v) vs) r = cum_le vs r).
-  { intro r. unfold cum_le.
-    assert (G : forall l, nonneg l -> total_power (filter (fun v => pv_rate v <=? r) (filter (fun v => 0 <? pv_power v) l))
-                         = total_power (filter (fun v => pv_rate v <=? r) l)).
-    { induction l as [|x l IH]; simpl; intro N; [reflexivity|]. apply nonneg_cons in N as [Nx N].
-      destruct (0 <? pv_power x) eqn:E; simpl; destruct (pv_rate x <=? r); simpl; rewrite (IH N); try reflexivity.
-      apply Z.ltb_ge in E. lia. }
-    apply G. exact Hn. }
-  unfold is_low_median. rewrite (Ht vs Hn), Hc.
-  split; [exists v; split; [apply filter_In; split; [exact Hv | apply Z.ltb_lt; exact Hp] | auto]|].
-  split; [exact C|].
-  intros w Hw Hpw Hlt. rewrite Hc. apply filter_In in Hw as [Hw _]. apply L; auto.
+  induction l as [|x l IH]; simpl; intro Hz; [reflexivity|].
+  assert (Hz' : only_zero_dropped f l) by (intros v Hv; apply Hz; right; exact Hv).
+  destruct (f x) eqn:E; simpl; rewrite (IH Hz'); [reflexivity|].
+  rewrite (Hz x (or_introl eq_refl) E). lia.
 Qed.
 
-Theorem wmedian_drop_zero vs :
-  nonneg vs -> 0 < total_power vs ->
-  wmedian true (filter (fun v => 0 <? pv_power v) vs) = wmedian true vs.
+Lemma cum_le_filter_zero f l r : only_zero_dropped f l -> cum_le (filter f l) r = cum_le l r.
 Proof.
-  intros Hn Hpos.
-  set (vs' := filter (fun v => 0 <? pv_power v) vs).
-  assert (Hn' : nonneg vs') by (apply nonneg_filter; exact Hn).
-  assert (Ht : total_power vs' = total_power vs).
-  { subst vs'. clear Hpos. induction vs as [|x l IH]; simpl; [reflexivity|]. apply nonneg_cons in Hn as [Nx N].
-    destruct (0 <? pv_power x) eqn:E; simpl; rewrite (IH N (nonneg_filter _ _ N)); [reflexivity|]. apply Z.ltb_ge in E. lia. }
-  apply (low_median_unique vs').
+  unfold cum_le. induction l as [|x l IH]; simpl; intro Hz; [reflexivity|].
+  assert (Hz' : only_zero_dropped f l) by (intros v Hv; apply Hz; right; exact Hv).
+  destruct (f x) eqn:E; simpl; destruct (pv_rate x <=? r); simpl; rewrite (IH Hz'); try reflexivity.
+  rewrite (Hz x (or_introl eq_refl) E). lia.
+Qed.
+
+Lemma low_median_filter f vs m :
+  only_zero_dropped f vs -> is_low_median vs m -> is_low_median (filter f vs) m.
+Proof.
+  intros Hz [[v [Hv [Hr Hp]]] [C L]].
+  unfold is_low_median. rewrite (tp_filter_zero f vs Hz), (cum_le_filter_zero f vs m Hz).
+  split.
+  - exists v. split; [|auto]. apply filter_In. split; [exact Hv|].
+    destruct (f v) eqn:E; [reflexivity|]. rewrite (Hz v Hv E) in Hp. lia.
+  - split; [exact C|].
+    intros w Hw Hpw Hlt. rewrite (cum_le_filter_zero f vs _ Hz). apply filter_In in Hw as [Hw _]. apply L; auto.
+Qed.
+
+Theorem wmedian_filter_zero f vs :
+  nonneg vs -> 0 < total_power vs -> only_zero_dropped f vs ->
+  wmedian true (filter f vs) = wmedian true vs.
+Proof.
+  intros Hn Hpos Hz.
+  assert (Hn' : nonneg (filter f vs)) by (apply nonneg_filter; exact Hn).
+  pose proof (tp_filter_zero f vs Hz) as Ht.
+  apply (low_median_unique (filter f vs)).
   - apply wmedian_is_low_median; [exact Hn' | lia].
-  - apply low_median_drop_zero; [exact Hn|]. apply wmedian_is_low_median; assumption.
+  - apply low_median_filter; [exact Hz|]. apply wmedian_is_low_median; assumption.
 Qed.
